@@ -87,7 +87,7 @@ impl M {
                 let r: Result<(MlsMessage, Option<CommitSecrets>, Vec<MlsMessage>), _> = if detached {
                     g.commit_detached(vec![]).map(|(o, sec)| (o.commit_message, Some(sec), o.welcome_messages))
                 } else if let Some((_, k)) = &kp {
-                    g.commit_builder().commit_time(time(CLOCK0)).add_member(k.clone()).and_then(|b| b.build()).map(|o| (o.commit_message, None, o.welcome_messages))
+                    g.commit_builder().commit_time(time(*CLOCK0)).add_member(k.clone()).and_then(|b| b.build()).map(|o| (o.commit_message, None, o.welcome_messages))
                 } else {
                     g.commit(vec![]).map(|o| (o.commit_message, None, o.welcome_messages))
                 };
